@@ -5,4 +5,5 @@ props=${1:-"C01 C08 C09 C10 C11 C12 C13 C14 C19 C20"}; seeds=${2:-"1 2 3 4 5"}; 
 for s in $seeds; do for p in $props; do
   out=$(VERIF_SEED=$s ./vcheck $p --no-evidence --budget $budget 2>&1); rc=$?
   echo "seed=$s prop=$p rc=$rc $(echo "$out" | grep -E "quick:|VIOLATION|INFRA" | head -3 | tr '\n' ' ' | cut -c1-300)"
+  if [ $rc -ne 0 ]; then echo "$out" | tail -15 | cut -c1-400 | sed 's/^/    | /'; fi
 done; done
